@@ -234,3 +234,6 @@ pub use version::{SemanticVersion, VersionParseError};
 pub use version_set::VersionSet;
 
 mod internal;
+
+#[cfg(pubgrub_verif)]
+pub mod verif;
